@@ -6,7 +6,15 @@ from hexlib import HexaryTrie, keccak, Boom, WriteFailed, FailingDict
 
 ID = "C04"
 LEAN_IMPORTS = ["PyTrie.Props.C04"]
-THEOREMS = []
+THEOREMS = [
+    "PyTrie.Props.C04.set_writes_addressed",
+    "PyTrie.Props.C04.delete_writes_addressed",
+    "PyTrie.Props.C04.set_delete_append_only",
+    "PyTrie.Props.C04.failed_op_keeps_roots",
+    "PyTrie.Props.C04.batch_commit_append_only",
+    "PyTrie.Props.C04.old_root_still_readable",
+    "PyTrie.Props.C04.lookup_eq_get?",
+]
 RULE = ("interleaved histories of several non-pruning tries over ONE shared database: set/delete on any trie, fresh tries "
         "opened at earlier roots, at_root snapshot reads, squash_changes blocks (normal exit, exception after n operations, n-th "
         "commit write failing) and single operations whose n-th database write fails (every n up to the operation's write "
@@ -20,7 +28,7 @@ BUDGET_S = {"quick": 90, "thorough": 780}
 
 
 def gen_cases(rng, tier):
-    n = 500 if tier == "quick" else 9000
+    n = 2000 if tier == "quick" else 20000
     for i in range(n):
         keys = hexlib.gen_universe(rng, rng.randint(2, 8)) if rng.random() < 0.8 else rng.sample(hexlib.CRAFTED_KEYS, 7)
         values = [hexlib.gen_value(rng) for _ in range(3)]
